@@ -49,6 +49,7 @@ def run(ctx, rep):
     c05.rounded(prog, rep)   # corner quadrant tables (R05.2): zero radii / half-side radii go through the same quadrants
     c05.circle(prog, rep)
     plane_sector_tables(prog, rep)
+    confine_sides(prog, rep)
     from rules import axis
     axis.run_for(ctx.program("default"), rep, 'R18.6', ['src/primitives/rounded_rectangle', 'src/primitives/circle', 'src/primitives/ellipse', 'src/primitives/arc', 'src/primitives/sector', 'src/primitives/common'], 'corner radii, quadrants and centres are computed per axis')
 
@@ -347,3 +348,77 @@ def plane_sector_tables(prog, rep):
             rep.check(not bad, "R18.5", "PlaneSector::point_type:table", "point_type must be None outside the outer sector, Fill inside the inner sector and Stroke between: " + "; ".join(bad[:3]), at=pt.span, fn=pt.path)
     except Unsupported as e:
         rep.fail("R18.5", "PlaneSector::point_type:table", "cannot summarise: %s" % e, status="undecided", at=pt.span, fn=pt.path)
+
+
+CR = "embedded_graphics::primitives::rounded_rectangle::corner_radii::CornerRadii"
+
+
+def confine_sides(prog, rep):
+    """R18.7 CornerRadii::confine measures the overlap along the four sides of the box: each overlap term is
+    (radius of one corner + radius of the other corner OF THE SAME SIDE, both along that side) - (box extent along that
+    side); all four sides occur; a scaling path scales every corner, in place, by (extent of one side) / (radii sum of
+    that same side)."""
+    f = prog.method1(CR, "confine", None)
+    names = [x["name"] for x in prog.adts[CR]["variants"][0]["fields"]]
+    me, bb = ("param", 1, "self"), ("param", 2, "bounding_box")
+    # side -> (the two corners, component along the side)
+    sides = {"top": ({"top_left", "top_right"}, 0), "right": ({"top_right", "bottom_right"}, 1),
+             "bottom": ({"bottom_left", "bottom_right"}, 0), "left": ({"top_left", "bottom_left"}, 1)}
+
+    def side_of(sum_):
+        m = match(sum_, ("bin", "Add", ("field", ("field", me, "?i"), "?k"), ("field", ("field", me, "?j"), "?l")))
+        if m is None or not all(isinstance(m[x], int) for x in ("?i", "?j", "?k", "?l")):
+            return None, "not the sum of two corner radii"
+        cs = {names[m["?i"]], names[m["?j"]]}
+        if m["?k"] != m["?l"]:
+            return None, "adds a width to a height (%s)" % sorted(cs)
+        for nm, (pair, k) in sides.items():
+            if cs == pair:
+                if k != m["?k"]:
+                    return None, "the %s side is measured with the %s of its corners" % (nm, ("widths", "heights")[m["?k"]])
+                return nm, None
+        return None, "%s and %s do not share a side" % tuple(sorted(cs)) if len(cs) == 2 else "one corner added to itself"
+
+    bad, seen, scaled = [], set(), 0
+    try:
+        summs = Paths(prog, inline=lambda g: prog.is_new(g)).of(f)
+    except Unsupported as e:
+        rep.check(False, "R18.7", "confine:sides", "cannot summarise CornerRadii::confine: %s" % e, status="undecided", at=f.span, fn=f.path)
+        return
+    from mirq.paths import strip_casts
+    for sm in summs:
+        trees = [x for fct in sm.facts for x in fct[1:] if isinstance(x, tuple)] + ([sm.ret] if sm.ret is not None else [])
+        for t in trees:
+            for n in walk(t):
+                if n[0] == "call" and n[1].endswith("::saturating_sub") and len(n[3]) == 2 and any(x == me for x in walk(n[3][0])):
+                    sd, why = side_of(strip_casts(n[3][0]))
+                    lim = strip_casts(n[3][1])
+                    if sd is None:
+                        bad.append("overlap term %s: %s" % (show(n, maxd=4), why))
+                    elif lim != ("field", bb, sides[sd][1]):
+                        bad.append("the %s side is compared with %s" % (sd, show(lim, maxd=3)))
+                    else:
+                        seen.add(sd)
+        r = sm.ret
+        if r is not None and r[0] == "agg" and str(r[1]).startswith(CR) and len(r[2]) == 4:
+            scaled += 1
+            pairs = set()
+            for i, c in enumerate(r[2]):
+                m = match(c, ("call", "*Div<u32>>::div", "_", (("call", "*Mul<u32>>::mul", "_", (("field", me, i), "?size")), "?sum")))
+                if m is None:
+                    bad.append("corner %s of a confined result is not self.%s * size / corner_size: %s" % (names[i], names[i], show(c, maxd=4)))
+                    continue
+                pairs.add((strip_casts(m["?size"]), strip_casts(m["?sum"])))
+            if len(pairs) > 1:
+                bad.append("the corners of one result are scaled by different factors")
+            for size, sum_ in pairs:
+                if size[0] == "const" and sum_[0] == "const":
+                    continue   # the infeasible `0 < 0` leftover path of the initial values
+                sd, why = side_of(sum_)
+                if sd is None:
+                    bad.append("scaling divisor %s: %s" % (show(sum_, maxd=4), why))
+                elif size != ("field", bb, sides[sd][1]):
+                    bad.append("corners are scaled to %s but the overlapping side is the %s side" % (show(size, maxd=3), sd))
+    rep.check(not bad and seen == set(sides) and scaled >= 4, "R18.7", "confine:sides",
+              "CornerRadii::confine must measure the overlap of the radii along each of the four sides and scale all corners by box extent / radii sum of one side: %s"
+              % ("; ".join(sorted(set(bad))[:3]) or "sides measured: %s, scaling paths: %d" % (sorted(seen), scaled)), at=f.span, fn=f.path, detail={"paths": len(summs), "sides": sorted(seen)})
